@@ -504,7 +504,17 @@ func e2eAppComponent(r *hx.Run) {
 		if tc.tMs > 0 {
 			args = append(args, "-t", fmt.Sprintf("%dms", tc.tMs))
 		}
-		args = append(args, "-p", fmt.Sprint(tgt.port), v4Text(tgt.ip))
+		tgts := []appTarget{tgt}
+		if opt.nofile > 0 {
+			// six such targets, taken up by six workers at once: the probes that get no descriptor fail, they do not
+			// queue up behind the ones that hold one (each for its full k*T)
+			for i := 1; i < 6; i++ {
+				tgts = append(tgts, appTarget{ip: tgt.ip, port: tgt.port + i, beh: tgt.beh})
+			}
+			args = append(args, "-p", fmt.Sprintf("%d-%d", tgt.port, tgt.port+5), v4Text(tgt.ip))
+		} else {
+			args = append(args, "-p", fmt.Sprint(tgt.port), v4Text(tgt.ip))
+		}
 		limit := time.Duration(mult)*eff + time.Duration(exitMs+slack)*time.Millisecond
 		obs := ""
 		best := time.Duration(-1)
@@ -513,7 +523,7 @@ func e2eAppComponent(r *hx.Run) {
 			tries = 2
 		}
 		for try := 0; try < tries; try++ {
-			farm := newAppFarm(tc.cmd, tc.proto, tlsCfg, try, []appTarget{tgt})
+			farm := newAppFarm(tc.cmd, tc.proto, tlsCfg, try, tgts)
 			res := runSXOpt(opt, nil, limit+20*time.Second, args...)
 			farm.close()
 			if res.exit != 0 && !res.timedOut {
